@@ -1,7 +1,8 @@
-(* C12 driver: case line `<variant 0|1|2> <required 0|1> <hex utf-8 text | ->`;
+(* C12 driver: case line `<variant 0|1|2|3> <required 0|1> <hex utf-8 text | ->`;
    variant 0 = header.rs as first pinned, 1 = after the array-loop and u64 repairs,
-   2 = after the nesting limit (MAX_SETTING_DEPTH) as well; the native stack is unbounded
-   (`None`) in all runs.
+   2 = after the nesting limit (MAX_SETTING_DEPTH) as well, 3 = 2 + white space skipped
+   between the '(' of a constructor value and its argument (fixed_ctor_ws, /repo fdd053a);
+   the native stack is unbounded (`None`) in all runs.
    prints the header parser mirror's result in the format of harness/src/bin/c12.rs; after an `OK`
    result, for every entry of the section (key order) the mirrors of YaccKind::try_from and
    SerialisationFormat::try_from applied to its value:
@@ -96,7 +97,9 @@ let () =
     match split_ws line with
     | [fx; rq; h] ->
       let src = List.map n_of_int (decode (bytes_of_hex h)) in
-      (match parse_header_gen (fx <> "0") (fx = "2") (rq = "1") None (fuel_for src) src with
+      (* variants: 0 = as first pinned, 1 = array-loop and u64 repairs, 2 = 1 + nesting limit,
+         3 = 2 + white space skipped before a constructor argument (fixed_ctor_ws) *)
+      (match parse_header_gen (fx <> "0") (fx = "2" || fx = "3") (fx = "3") (rq = "1") None (fuel_for src) src with
        | Panic -> "PANIC"
        | OutOfFuel -> "HANG"
        | Done (HOk (hdr, pos)) ->
